@@ -3,8 +3,11 @@
    Definitions only. *)
 From RT Require Export Model.Strs.
 
-Inductive sitem := SPrivate | SProtected | SPublic | SDef (name : string).
-Inductive item := IPrivate | IProtected | IPublic | IDef (name : string) | IDefSelf (name : string) | ISingleton (body : list sitem).
+(* SPrivateDef / IPrivateDef: `private def name ... end`; IPrivateSym: `private :a, :b` (repaired code: neither opens a
+   section) *)
+Inductive sitem := SPrivate | SProtected | SPublic | SDef (name : string) | SPrivateDef (name : string).
+Inductive item := IPrivate | IProtected | IPublic | IDef (name : string) | IDefSelf (name : string) | ISingleton (body : list sitem)
+                | IPrivateDef (name : string) | IPrivateSym (names : list string).
 
 Inductive vis := Public | Private | Protected.
 Record tagged := { tg_name : string; tg_class_method : bool; tg_vis : vis }.
@@ -33,6 +36,10 @@ Fixpoint singleton_loop (body : list sitem) (f : flags) (ds : list deferred) : l
   | SDef n :: r =>
       let '(out, f', ds') := singleton_loop r f ds in
       ({| tg_name := n; tg_class_method := true; tg_vis := tag_of f |} :: out, f', ds')
+  | SPrivateDef n :: r =>
+      (* the definition is evaluated with a copy of the context on which StartPrivate was called *)
+      let '(out, f', ds') := singleton_loop r f ds in
+      ({| tg_name := n; tg_class_method := true; tg_vis := tag_of (start_private f) |} :: out, f', ds')
   end.
 
 (* classIdentifierProcessing (repaired): the outer flags are saved, the section starts public, and the restoring
@@ -55,6 +62,8 @@ Fixpoint class_loop (items : list item) (f : flags) : list tagged :=
       (* def self.: the definition's own copy of the context leaves the section *)
       {| tg_name := n; tg_class_method := true; tg_vis := tag_of (end_protected (end_private f)) |} :: class_loop r f
   | ISingleton body :: r => let '(out, f') := singleton_section body f in out ++ class_loop r f'
+  | IPrivateDef n :: r => {| tg_name := n; tg_class_method := false; tg_vis := tag_of (start_private f) |} :: class_loop r f
+  | IPrivateSym _ :: r => class_loop r f
   end.
 Definition class_tags (items : list item) : list tagged := class_loop items {| f_priv := false; f_prot := false |}.
 
@@ -66,6 +75,7 @@ Fixpoint ruby_singleton (body : list sitem) (v : vis) : list tagged :=
   | SProtected :: r => ruby_singleton r Protected
   | SPublic :: r => ruby_singleton r Public
   | SDef n :: r => {| tg_name := n; tg_class_method := true; tg_vis := v |} :: ruby_singleton r v
+  | SPrivateDef n :: r => {| tg_name := n; tg_class_method := true; tg_vis := Private |} :: ruby_singleton r v
   end.
 Fixpoint ruby_class (items : list item) (v : vis) : list tagged :=
   match items with
@@ -76,6 +86,8 @@ Fixpoint ruby_class (items : list item) (v : vis) : list tagged :=
   | IDef n :: r => {| tg_name := n; tg_class_method := false; tg_vis := v |} :: ruby_class r v
   | IDefSelf n :: r => {| tg_name := n; tg_class_method := true; tg_vis := Public |} :: ruby_class r v
   | ISingleton body :: r => ruby_singleton body Public ++ ruby_class r v
+  | IPrivateDef n :: r => {| tg_name := n; tg_class_method := false; tg_vis := Private |} :: ruby_class r v
+  | IPrivateSym _ :: r => ruby_class r v
   end.
 Definition ruby_tags (items : list item) : list tagged := ruby_class items Public.
 
@@ -91,4 +103,21 @@ Fixpoint pinned_class_loop (items : list item) (f : flags) : list tagged :=
   | IDef n :: r => {| tg_name := n; tg_class_method := false; tg_vis := tag_of f |} :: pinned_class_loop r f
   | IDefSelf n :: r => {| tg_name := n; tg_class_method := true; tg_vis := tag_of f |} :: pinned_class_loop r f
   | ISingleton body :: r => let '(out, f') := pinned_singleton_section body f in out ++ pinned_class_loop r f'
+  | IPrivateDef n :: r => {| tg_name := n; tg_class_method := false; tg_vis := Private |} :: pinned_class_loop r (start_private f)
+  | IPrivateSym _ :: r => pinned_class_loop r (start_private f)
+  end.
+
+(* the code before the `private` repair: the keyword opened a section whatever followed it *)
+Fixpoint section_class_loop (items : list item) (f : flags) : list tagged :=
+  match items with
+  | [] => []
+  | IPrivate :: r => section_class_loop r (start_private f)
+  | IProtected :: r => section_class_loop r (start_protected f)
+  | IPublic :: r => section_class_loop r (end_protected (end_private f))
+  | IDef n :: r => {| tg_name := n; tg_class_method := false; tg_vis := tag_of f |} :: section_class_loop r f
+  | IDefSelf n :: r =>
+      {| tg_name := n; tg_class_method := true; tg_vis := tag_of (end_protected (end_private f)) |} :: section_class_loop r f
+  | ISingleton body :: r => let '(out, f') := singleton_section body f in out ++ section_class_loop r f'
+  | IPrivateDef n :: r => {| tg_name := n; tg_class_method := false; tg_vis := Private |} :: section_class_loop r (start_private f)
+  | IPrivateSym _ :: r => section_class_loop r (start_private f)
   end.
